@@ -5,7 +5,6 @@ import (
 	"sync"
 	"time"
 
-	"github.com/internetarchive/Zeno/verifsim/sim/simsync"
 	"github.com/internetarchive/Zeno/verifsim/sim/statsx"
 )
 
@@ -19,8 +18,6 @@ func simStats(cs *compState) {
 		k.Violate("C17", "init", "stats-init-failed", err.Error())
 		return
 	}
-	simsync.YieldFn = func() { k.Handle("stats.yield", true, nil) }
-	defer func() { simsync.YieldFn = nil }()
 	var mm sync.Mutex
 	var urls, seeds, meanSum, meanCount uint64
 	codes := map[string]uint64{}
